@@ -35,6 +35,8 @@ def check(res, thorough, prop):
         res.add(core.ob(f"{prop} evaluated on the implementation ({s['stats'].get(cfg['key'] + '.cases', 0)} cases)", "impl-property",
                         s["rc"] == 0 and new == 0 and s["stats"].get(cfg["key"] + ".cases", 0) == n_prop,
                         json.dumps(s["findings"][:3], ensure_ascii=False) + s["err"]))
+        if prop == "C10":
+            seq_stage_check(res, thorough)
         res.evaluations = s["stats"].get(cfg["evals"], 0) + g["stats"].get("glue.cases", 0)
         res.distinct_nontrivial = s["stats"].get(cfg["nontrivial"], 0)
         res.samples = s["samples"] + g["samples"][:3]
@@ -43,6 +45,37 @@ def check(res, thorough, prop):
     res.assumptions = ["the interpreter (Rule::apply), the parsers and the renderer are abstract parameters of the runner model: the theorems hold for any behaviour of those components",
                        "cases on which the pinned tree panics or hangs are skipped here (they are C02's subject) and counted in input_distribution"]
     return res.finish()
+
+
+def seq_stage_check(res, thorough):
+    """C10, mechanism `seq feeds each stage's rendered words to the next stage`: the asca binary on generated pipeline projects (the
+    generator and the per-project oracle of C20): what `asca seq` writes for a tag at the end of a % chain is what the library gives
+    when the stages are composed, row for row"""
+    from concurrent.futures import ThreadPoolExecutor
+    from . import c20, cli
+    tier = "thorough" if thorough else "quick"
+    b = cli.build_cli()
+    res.add(b)
+    if not b["ok"]:
+        return
+    scratch = core.scratch_dir("c10seq")
+    try:
+        rc, out, err, _ = core.run([core.HARNESS_BIN, "c20-gen", scratch, tier, str(res.seed + 10)], timeout=3000, env=cli.ENV)
+        cases = sorted(os.path.join(scratch, d) for d in os.listdir(scratch) if d.startswith("case"))
+        with ThreadPoolExecutor(max_workers=16) as ex:
+            results = list(ex.map(c20.one_case, cases))
+        keep = ("c20-words-differ", "c20-staged-differs-from-history", "c20-seq-failed", "c20-out-missing")
+        findings, chains = [], 0
+        for F, st in results:
+            chains += st.get("chains_compared_with_whole_history", 0)
+            findings += [("c10-seq:" + k[4:], v) for k, v in F if k.startswith(keep)]
+        new = suites.classify(res, "C10", findings, f"asca-harness c20-gen <dir> {tier} {res.seed + 10}; then `asca seq . -o -y` per project (vlib/runnerprops.py seq_stage_check)")
+        res.add(core.ob(f"seq stages: on {len(cases)} generated pipeline projects ({chains} % chains) the words `asca seq` writes for every tag are the library's composition of the "
+                        f"stages, row for row ({len(findings)} findings, {new} not in known_findings.json)", "impl-property",
+                        rc == 0 and new == 0 and len(cases) >= 100, json.dumps(findings[:3], ensure_ascii=False) + err[-300:]))
+        res.coverage["seq_stage_projects"] = len(cases)
+    finally:
+        shutil.rmtree(scratch, ignore_errors=True)
 
 
 def replay(path):
